@@ -70,6 +70,17 @@ class EntV(Ent):              # VALUE equality (like the repository's own test c
         return hash((self.a, self.b, self.s, self.tags))
 
 
+@dataclass(eq=False)
+class KwMixin:                # a keyword-only field that dataclasses.fields() lists FIRST and __init__ takes LAST
+    w: int = field(default=5, kw_only=True)
+
+
+@symbol
+@dataclass(eq=False, repr=False)
+class EntKw(Ent, KwMixin):    # positional parameters k, a, b, ... ; w only by keyword (the docs' WorldEntity.world pattern)
+    pass
+
+
 @symbol
 @dataclass(eq=False)
 class Other:                  # unrelated decorated class, for mixed-type domains and joins
@@ -138,7 +149,7 @@ class Foreign:                # unrelated undecorated class
         return f"Foreign#{self.k}"
 
 
-CLASSES = {"Ent": Ent, "EntSub": EntSub, "EntSubSub": EntSubSub, "EntPlain": EntPlain, "EntV": EntV, "Other": Other, "Foreign": Foreign, "Made": Made,
+CLASSES = {"Ent": Ent, "EntKw": EntKw, "EntSub": EntSub, "EntSubSub": EntSubSub, "EntPlain": EntPlain, "EntV": EntV, "Other": Other, "Foreign": Foreign, "Made": Made,
            "Pair": Pair}
 
 
@@ -275,7 +286,7 @@ def build_entities(records: List[dict]) -> List[Any]:
         else:
             objs.append(cls(k=r["k"], a=r.get("a", 1), b=r.get("b", 1), s=r.get("s", "x"),
                             tags=tuple(r.get("tags", [1])), o=dec(r.get("o", 1)),
-                            d=dict(r.get("d", {"p": 1, "q": 2}))))
+                            d=dict(r.get("d", {"p": 1, "q": 2})), **({"w": r.get("a", 1)} if cls is EntKw else {})))
     for r, o in zip(records, objs):
         if isinstance(o, Foreign):
             continue
